@@ -207,7 +207,7 @@ def A_const(e: ast.AST):
 
 
 def check_sentinel_producer(ctx: Ctx, rule: str):
-    """_build_arrays_alignment writes -1 in field 3 of a None slot, and the slot index is the annotator's sorted index"""
+    """_build_arrays_alignment writes -1 in field 3 of a None slot (the slot numbering itself is irrelevant: the pair-sum is symmetric)"""
     f = ctx.fn("AbstractDissimilarity._build_arrays_alignment", rule)
     wrote = False
     for n in walk_no_nested(f.node):
@@ -224,10 +224,6 @@ def check_sentinel_producer(ctx: Ctx, rule: str):
                     wrote = True
     ctx.check(wrote, rule, f, None, "an empty unit is written with category field -1 (the sentinel the kernel tests)",
               bad_detail="the array builder does not mark empty units with -1 in field 3", construct="None branch", key="sentinel-producer")
-    idx = [n for n in walk_no_nested(f.node) if isinstance(n, ast.Assign) and isinstance(n.value, ast.Call) and
-           norm(n.value.func).endswith(".index") and isinstance(n.targets[0], ast.Name) and "annotators" in norm(n.value.func)]
-    ctx.check(bool(idx), rule, f, idx[0] if idx else None, "a unit's slot is the index of its annotator in the sorted annotator set: "
-              "independent of the order of the pairs inside a unitary alignment", key="slot-by-annotator")
 
 
 # =============================================================================================
